@@ -724,6 +724,8 @@ Proof.
     subst. split; [reflexivity | assumption].
   - split; [reflexivity | exact H].
   - split; [reflexivity | exact H].
+  - (* NLeak *) cbn [ser_node ideal fst snd]. split; [reflexivity | unfold leak; rewrite H; reflexivity].
+  - (* NFlatten *) cbn [ser_node ideal fst snd]. split; [reflexivity | unfold leak; rewrite H; reflexivity].
   - (* NNil *) split; [reflexivity | exact H].
   - (* NCons *) rewrite ser_nodes_cons. cbn [ideals]. destruct (H st H1) as [H2 H3].
     destruct (ser_node x st) as [r1 st']. cbn [fst snd] in *. subst r1.
@@ -739,3 +741,110 @@ Qed.
 Theorem reentrancy_transparent_proof : forall y st,
   fst (convert y st) = ideal_convert y /\ flag (snd (convert y st)) = flag st.
 Proof. intros y st. apply convert_good. apply reentrancy_all. Qed.
+
+(* ================================================================================== *)
+(* 5. the registry is a map keyed by handle number (stale entries do not interfere)     *)
+(* ================================================================================== *)
+Lemma amap_get_remove_other : forall h h' m, h' <> h -> amap_get h' (amap_remove h m) = amap_get h' m.
+Proof.
+  intros h h' m Hne. induction m as [|[k x] m IH]; [reflexivity|].
+  unfold amap_remove in *. cbn [filter fst]. destruct (k =? h) eqn:E; cbn [negb].
+  - rewrite IH. cbn [amap_get]. destruct (k =? h') eqn:E2; [lia | reflexivity].
+  - cbn [amap_get]. rewrite IH. reflexivity.
+Qed.
+
+Lemma amap_get_insert_same : forall h v m, amap_get h (amap_insert h v m) = Some v.
+Proof. intros. unfold amap_insert. cbn [amap_get]. rewrite Z.eqb_refl. reflexivity. Qed.
+
+Lemma amap_get_insert_other : forall h h' v m, h' <> h -> amap_get h' (amap_insert h v m) = amap_get h' m.
+Proof.
+  intros h h' v m Hne. unfold amap_insert. cbn [amap_get]. destruct (h =? h') eqn:E; [lia|].
+  apply amap_get_remove_other. exact Hne.
+Qed.
+
+Theorem reg_get_insert_same : forall r h v, reg_get (reg_insert r h v) h = Some v.
+Proof.
+  intros [sg ov] h v. unfold reg_insert, reg_get. cbn [single overflow].
+  destruct sg as [[h' v']|]; [|destruct ov]; cbn [single overflow]; try rewrite Z.eqb_refl; try reflexivity;
+    apply amap_get_insert_same.
+Qed.
+
+Theorem reg_get_insert_other : forall r h v h', h' <> h -> reg_get (reg_insert r h v) h' = reg_get r h'.
+Proof.
+  intros [sg ov] h v h' Hne. unfold reg_insert, reg_get. cbn [single overflow].
+  destruct sg as [[k x]|].
+  - cbn [single overflow]. rewrite amap_get_insert_other by exact Hne.
+    destruct (k =? h') eqn:E.
+    + apply Z.eqb_eq in E. subst k. apply amap_get_insert_same.
+    + apply amap_get_insert_other. lia.
+  - destruct ov as [|e ov]; cbn [single overflow].
+    + destruct (h =? h') eqn:E; [lia | reflexivity].
+    + apply amap_get_insert_other. exact Hne.
+Qed.
+
+Theorem reg_remove_get : forall r h, fst (reg_remove r h) = reg_get r h.
+Proof.
+  intros [sg ov] h. unfold reg_remove, reg_get. cbn [single overflow].
+  destruct sg as [[k x]|]; [destruct (k =? h)|]; reflexivity.
+Qed.
+
+Theorem reg_remove_other : forall r h h', h' <> h -> reg_get (snd (reg_remove r h)) h' = reg_get r h'.
+Proof.
+  intros [sg ov] h h' Hne. unfold reg_remove, reg_get. cbn [single overflow].
+  destruct sg as [[k x]|].
+  - destruct (k =? h) eqn:E; cbn [snd single overflow].
+    + apply Z.eqb_eq in E. subst k. destruct (h =? h') eqn:E2; [lia | reflexivity].
+    + destruct (k =? h'); [reflexivity | apply amap_get_remove_other; exact Hne].
+  - cbn [snd single overflow]. apply amap_get_remove_other. exact Hne.
+Qed.
+
+(* ================================================================================== *)
+(* 6. JSON arrays: the length hint                                                      *)
+(* ================================================================================== *)
+Lemma json_elems_rest : forall sep elems,
+  json_elems sep JRest elems = (flat_map (fun e => sep ++ e) elems, JRest).
+Proof.
+  intros sep. induction elems as [|e r IH]; [reflexivity|].
+  cbn [json_elems flat_map]. rewrite IH. rewrite <- app_assoc. reflexivity.
+Qed.
+
+Lemma intercalate_cons : forall sep e r, intercalate sep (e :: r) = e ++ flat_map (fun x => sep ++ x) r.
+Proof.
+  intros sep e r. revert e. induction r as [|x r IH]; intro e.
+  - cbn [intercalate flat_map]. rewrite app_nil_r. reflexivity.
+  - change (intercalate sep (e :: x :: r)) with (e ++ sep ++ intercalate sep (x :: r)).
+    rewrite IH. cbn [flat_map]. rewrite <- app_assoc. reflexivity.
+Qed.
+
+Lemma json_array_not_empty_hint : forall sep elems,
+  (let '(body, st) := json_elems sep JFirst elems in 91 :: [] ++ body ++ match st with JEmpty => [] | _ => [93] end)
+  = array_text sep elems.
+Proof.
+  intros sep [|e r].
+  - reflexivity.
+  - cbn [json_elems]. rewrite json_elems_rest. unfold array_text. rewrite intercalate_cons. cbn [app]. reflexivity.
+Qed.
+
+(* a hint that is absent or exact gives the array text; this is all serde_json needs of the caller *)
+Theorem json_array_wellformed_proof : forall sep hint elems,
+  hint = None \/ hint = Some (lenZ elems) -> json_array sep hint elems = array_text sep elems.
+Proof.
+  intros sep hint elems [-> | ->].
+  - unfold json_array. apply json_array_not_empty_hint.
+  - destruct elems as [|e r].
+    + reflexivity.
+    + unfold json_array. assert (E : lenZ (e :: r) <> 0) by (unfold lenZ; cbn [length]; lia).
+      destruct (lenZ (e :: r)) eqn:El; [contradiction | | ]; apply json_array_not_empty_hint.
+Qed.
+
+Theorem seq_hint_wellformed_proof : forall sep sized elems,
+  json_array sep (seq_len_hint sized elems) elems = array_text sep elems.
+Proof.
+  intros sep sized elems. apply json_array_wellformed_proof. unfold seq_len_hint. destruct sized; auto.
+Qed.
+
+(* and why the hint must not be a mere lower bound: hint Some 0 on [1, 2] *)
+Lemma zero_hint_breaks_proof :
+  json_array [44; 32] (Some 0) [[49]; [50]] = [91; 93; 44; 32; 49; 44; 32; 50; 93] /\
+  json_tokens (json_array [44; 32] (Some 0) [[49]; [50]]) <> json_tokens (array_text [44; 32] [[49]; [50]]).
+Proof. split; [reflexivity | vm_compute; discriminate]. Qed.
